@@ -8,7 +8,15 @@ import numpy as np
 from .common import *  # noqa: F401,F403
 from .common import sym_pixels, pixels_from_inputs, scratch_file, symcooler, sym_int, sym_bool, concretize
 from .model import concrete_bins, build_cooler_sym, build_cooler_real
-from engine.symcore import SReal
+from engine.symcore import SReal, Inconclusive
+
+
+def symnp_const(x):
+    from engine.symnp import _const_value
+    c = _const_value(x)
+    if c is None:
+        raise Inconclusive("MAD-max reference needs enumerated (concrete) data")
+    return c
 
 
 def chrom_of(layout):
@@ -31,7 +39,18 @@ def make_sym(p):
         b1 = [concretize(x) for x in b1]
         b2 = [concretize(x) for x in b2]
     path = scratch_file("bal.cool")
-    build_cooler_sym(path, bins, b1, b2, {"count": v}, True)
+    if p.get("prior"):
+        # history: a different collection (other chromosome layout) lived at the same URI and was balanced in this process before
+        pl = p["prior"]
+        pb = concrete_bins(pl, "even")
+        build_cooler_sym(path, pb, [0], [sum(pl) - 1], {"count": [1]}, True)
+        sc.balance_cooler(sc.Cooler(path), chunksize=None, cis_only=True, ignore_diags=False, min_nnz=0, min_count=0, mad_max=0, max_iters=1, tol=0.5)
+    if p.get("float_counts"):
+        # a float64 count column with fractional values (quarters): filters that count non-zeros must not see the magnitudes
+        v = [SReal.of(x) / 4 for x in v]
+        build_cooler_sym(path, bins, b1, b2, {"count": v}, True, dtypes={"count": "float64"})
+    else:
+        build_cooler_sym(path, bins, b1, b2, {"count": v}, True)
     return sc, sc.Cooler(path), b1, b2, v
 
 
@@ -41,7 +60,20 @@ def make_real(p, inputs):
     bins = concrete_bins(layout, "even")
     b1, b2, v = pixels_from_inputs(inputs, K)
     path = scratch_file("bal.cool")
-    build_cooler_real(path, bins, b1, b2, {"count": v}, True)
+    if p.get("prior"):
+        import os
+        import warnings
+        pl = p["prior"]
+        pb = concrete_bins(pl, "even")
+        build_cooler_real(path, pb, [0], [sum(pl) - 1], {"count": [1]}, True)
+        with warnings.catch_warnings():
+            warnings.simplefilter("ignore")
+            cooler.balance_cooler(cooler.Cooler(path), chunksize=None, cis_only=True, ignore_diags=False, min_nnz=0, min_count=0, mad_max=0, max_iters=1, tol=0.5)
+    if p.get("float_counts"):
+        v = [x / 4 for x in v]
+        build_cooler_real(path, bins, b1, b2, {"count": v}, True, dtypes={"count": "float64"})
+    else:
+        build_cooler_real(path, bins, b1, b2, {"count": v}, True)
     return cooler, cooler.Cooler(path), b1, b2, v
 
 
@@ -97,7 +129,7 @@ def expected_masks(layout, b1, b2, v, opts, mode):
         # normalised by the median non-zero marginal of its chromosome, lies more than mad_max median absolute deviations
         # below the median log marginal. A bin whose marginal sits on the cut-off (to 1e-9) is ambiguous in binary64.
         import statistics
-        m = [float(int(x)) for x in cnt]
+        m = [float(symnp_const(x)) for x in cnt]
         for c in set(ch):
             idx = [i for i in range(n) if ch[i] == c]
             nz = [m[i] for i in idx if m[i] > 0]
